@@ -7,6 +7,7 @@
     pipe      : select + rebuild fused (proof device)
 -/
 import GitAiModel.Model.Redact
+import GitAiModel.Lemmas.RedactJson
 namespace GitAi.Redact
 open GitAi
 
@@ -576,15 +577,53 @@ theorem specCount_eq (sel : Str → Bool) (t : Str) :
         simp only [this, Bool.false_eq_true, if_false, List.filter_cons, List.filter_nil]
         split <;> simp
 
+/-! ## tool inputs (JSON values) -/
+
+/-- a zero count means the text is unchanged (so `if count > 0 { *text = redacted }` loses nothing) -/
+theorem spec_of_count_zero (sel : Str → Bool) (t : Str) (h : specCount sel [] t = 0) :
+    spec sel [] t = t := by
+  rw [specCount_eq] at h
+  have hall : ∀ r ∈ runsAux [] t, flagged sel r = false := by
+    intro r hr
+    cases hf : flagged sel r
+    · rfl
+    · have : r ∈ (runsAux [] t).filter (flagged sel) := List.mem_filter.2 ⟨hr, hf⟩
+      rw [List.eq_nil_of_length_eq_zero h] at this
+      simp at this
+  simpa using (spec_id sel t [] rfl hall).1
+
+/-- the byte-offset model of `redact_secrets_in_text` is a text redaction in the sense the JSON
+    traversal needs: never panics, returns `spec`, and a zero count means "unchanged" -/
+theorem redactText_refines (sel : Str → Bool) : TextRefines (redactText sel) (spec sel []) := by
+  intro s
+  exact ⟨specCount sel [] s, redactText_eq_spec sel s, spec_of_count_zero sel s⟩
+
+/-- the specification of `redact_secrets_in_json`: `spec` on every string leaf and object key -/
+def specJ (sel : Str → Bool) (j : J) : J := specJWith (spec sel []) j
+
+/-- **no panic, exact result** of the JSON traversal, for every value (any depth, any width) -/
+theorem redactJ_eq (sel : Str → Bool) (j : J) : ∃ n, redactJ sel j = some (specJ sel j, n) :=
+  redactJWith_eq (redactText_refines sel) j
+
+/-- every string of a redacted value — leaf or key, at any depth — is the redaction of a string of
+    the input, hence clean -/
+theorem specJ_strings (sel : Str → Bool) (j : J) :
+    ∀ t ∈ (specJ sel j).strings, (∃ s ∈ j.strings, t = spec sel [] s) ∧ Clean sel t := by
+  intro t ht
+  obtain ⟨s, hs, rfl⟩ := strings_specJWith (spec sel []) j t ht
+  exact ⟨⟨s, hs, rfl⟩, spec_clean sel s⟩
+
 /-! ## prompts -/
 
-/-- the text of a message that `redact_secrets_from_prompts` rewrites (`none`: tool use) -/
-def msgText : Msg → Option Str
-  | .user t | .assistant t | .thinking t | .plan t => some t
-  | .toolUse _ _ => none
+/-- every string of a message that reaches a note and that `redact_secrets_from_prompts` is
+    responsible for: the text of a text message; every string leaf and every object key of a tool
+    input (the tool NAME and the timestamps are identifiers / metadata the code never rewrites) -/
+def msgStrings : Msg → List Str
+  | .user t | .assistant t | .thinking t | .plan t => [t]
+  | .toolUse _ i => i.strings
 
 def CleanMsgs (sel : Str → Bool) (ms : List Msg) : Prop :=
-  ∀ m ∈ ms, ∀ t, msgText m = some t → Clean sel t
+  ∀ m ∈ ms, ∀ t ∈ msgStrings m, Clean sel t
 
 /-- the specification of `redact_secrets_from_prompts` on one message -/
 def specMsg (sel : Str → Bool) : Msg → Msg
@@ -592,11 +631,15 @@ def specMsg (sel : Str → Bool) : Msg → Msg
   | .assistant t => .assistant (spec sel [] t)
   | .thinking t => .thinking (spec sel [] t)
   | .plan t => .plan (spec sel [] t)
-  | .toolUse n i => .toolUse n i
+  | .toolUse n i => .toolUse n (specJ sel i)
 
 theorem redactMsg_eq (sel : Str → Bool) (m : Msg) :
     ∃ n, redactMsg sel m = some (specMsg sel m, n) := by
-  cases m <;> simp [redactMsg, specMsg, redactText_eq_spec]
+  cases m with
+  | toolUse name i =>
+    obtain ⟨n, hn⟩ := redactJ_eq sel i
+    exact ⟨n, by simp [redactMsg, specMsg, hn]⟩
+  | _ => simp [redactMsg, specMsg, redactText_eq_spec]
 
 theorem redactMsgs_eq (sel : Str → Bool) (ms : List Msg) :
     ∃ n, redactMsgs sel ms = some (ms.map (specMsg sel), n) := by
@@ -623,7 +666,11 @@ theorem specMsg_clean (sel : Str → Bool) (ms : List Msg) : CleanMsgs sel (ms.m
   intro m hm t ht
   rw [List.mem_map] at hm
   obtain ⟨m0, _, rfl⟩ := hm
-  cases m0 <;> simp only [specMsg, msgText, Option.some.injEq, reduceCtorEq] at ht <;> subst ht <;> exact spec_clean sel _
+  cases m0 with
+  | toolUse name i => exact (specJ_strings sel i t ht).2
+  | _ =>
+    simp only [specMsg, msgStrings, List.mem_singleton] at ht
+    subst ht; exact spec_clean sel _
 
 theorem stripMessages_empty (ps : List Prompt) : ∀ p ∈ stripMessages ps, p.messages = [] := by
   intro p hp
@@ -820,12 +867,12 @@ theorem strip_setUrls_ids (ps : List Prompt) :
 
 /-! ### unsafe shapes leak (one witness per rejected field, the other fields arbitrary) -/
 
-/-- a record whose only message is a tool call (left alone by the redaction, whatever the classifier) -/
-def leakWitness : Prompt := ⟨[], [.toolUse [] []], none⟩
+/-- a record whose only message is a tool call with a `null` input (nothing to redact, whatever the classifier) -/
+def leakWitness : Prompt := ⟨[], [.toolUse [] .null], none⟩
 
 theorem redactPrompts_leakWitness (sel : Str → Bool) :
     redactPrompts sel [leakWitness] = some ([leakWitness], 0) := by
-  simp [redactPrompts, redactMsgs, redactMsg, leakWitness]
+  simp [redactPrompts, redactMsgs, redactMsg, redactJ, redactJWith, leakWitness]
 
 theorem leak_notEnqueueing (sh : EnqShape) (h : sh.stripsWhenNotEnqueueing = false) (sel : Str → Bool) :
     defaultArm sh sel ⟨false, fun _ => ⟨true, []⟩⟩ [leakWitness] = some [leakWitness] := by
